@@ -1,1 +1,1001 @@
-//! (reference model; owner fills this in)
+//! Reference model for TeX's line breaking, written from the DEFINITIONS (TeX: The Program
+//! §813–§890, TeXbook ch. 14), not as a transcription of the active-list algorithm:
+//!
+//! * legal breakpoints (§866–869, TeXbook p.96): at glue preceded by a non-discardable item (outside
+//!   math), at an explicit kern or a math-off immediately followed by glue, at a penalty < 10000, at a
+//!   discretionary (penalty `\hyphenpenalty`, or `\exhyphenpenalty` if the pre-break text is empty),
+//!   and at the end of the list (forced, counted as "hyphenated" for the final-hyphen rule, §873);
+//! * the material of the line from break *a* to break *b* (§837, §879): everything after *a* up to
+//!   *b*, except the glue, penalty, math and explicit-kern items that follow *a* up to the first
+//!   non-discardable item; a discretionary *a* contributes its post-break text and swallows its
+//!   `replace_count` items (§840–842) — and only if its post-break text is empty are following
+//!   discardables dropped; a discretionary *b* contributes its pre-break text (§869–870);
+//!   `\leftskip`+`\rightskip` (+`\emergencystretch`) are added to every line (§827);
+//! * badness (§108) and fitness class (§817, §852–853), demerits (§859), feasibility b ≤ threshold
+//!   (§851; threshold = min(tolerance, 10000), §863), forced breaks (penalty ≤ −10000);
+//! * looseness (§875).
+//!
+//! Two independent evaluators over these definitions: a dynamic programme over
+//! (breakpoint, number of lines so far, fitness class of the last line) and, for ≤ 12 optional
+//! breakpoints, brute-force enumeration of all subsets. They must agree with each other.
+//!
+//! `Rule` selects how the discardable run after a break is treated; `Rule::Tex` is TeX. The other
+//! variants exist for known-finding attribution (deviation models) and for one documented
+//! ambiguity (see `Rule::TexStopAtNextBreak`).
+//!
+//! Nothing here depends on /repo.
+
+use std::collections::BTreeMap;
+
+pub const INF_BAD: i32 = 10000;
+pub const INF_PENALTY: i32 = 10000;
+pub const EJECT_PENALTY: i32 = -10000;
+/// §833
+pub const AWFUL_BAD: i64 = 0o7777777777;
+
+pub const VERY_LOOSE: u8 = 0;
+pub const LOOSE: u8 = 1;
+pub const DECENT: u8 = 2;
+pub const TIGHT: u8 = 3;
+
+#[derive(Clone, Debug, PartialEq, Eq, Hash)]
+pub enum Item {
+    /// char, ligature, hlist, vlist, rule: non-discardable, has a width.
+    Box { w: i32 },
+    /// Glue with finite shrink (§825 forbids infinite shrink in paragraphs).
+    Glue {
+        w: i32,
+        stretch: i32,
+        stretch_order: u8,
+        shrink: i32,
+    },
+    Kern { w: i32, explicit: bool },
+    Penalty(i32),
+    /// Math-on / math-off; zero width (the implementation's Math node carries none).
+    MathOn,
+    MathOff,
+    /// Discretionary: total widths of the pre- and post-break texts, whether they are empty lists,
+    /// and the number of following items replaced when the break is taken.
+    Disc {
+        pre_w: i32,
+        pre_empty: bool,
+        post_w: i32,
+        post_empty: bool,
+        replace: usize,
+    },
+}
+
+#[derive(Clone, Copy, Debug, Default, PartialEq, Eq, Hash)]
+pub struct Totals {
+    pub w: i64,
+    pub stretch: [i64; 4],
+    pub shrink: i64,
+}
+
+impl Totals {
+    pub fn add(&self, o: &Totals) -> Totals {
+        Totals {
+            w: self.w + o.w,
+            stretch: [
+                self.stretch[0] + o.stretch[0],
+                self.stretch[1] + o.stretch[1],
+                self.stretch[2] + o.stretch[2],
+                self.stretch[3] + o.stretch[3],
+            ],
+            shrink: self.shrink + o.shrink,
+        }
+    }
+    pub fn sub(&self, o: &Totals) -> Totals {
+        Totals {
+            w: self.w - o.w,
+            stretch: [
+                self.stretch[0] - o.stretch[0],
+                self.stretch[1] - o.stretch[1],
+                self.stretch[2] - o.stretch[2],
+                self.stretch[3] - o.stretch[3],
+            ],
+            shrink: self.shrink - o.shrink,
+        }
+    }
+    pub fn is_zero(&self) -> bool {
+        *self == Totals::default()
+    }
+}
+
+#[derive(Clone, Debug, PartialEq, Eq, Hash)]
+pub struct Params {
+    /// Width of line 1, 2, ...; the last entry repeats (non-empty).
+    pub line_widths: Vec<i32>,
+    pub tolerance: i32,
+    pub line_penalty: i32,
+    pub hyphen_penalty: i32,
+    pub ex_hyphen_penalty: i32,
+    pub adj_demerits: i32,
+    pub double_hyphen_demerits: i32,
+    pub final_hyphen_demerits: i32,
+    pub looseness: i32,
+    /// `\leftskip` + `\rightskip`, with `\emergencystretch` added to the finite stretch (§827).
+    pub background: Totals,
+}
+
+#[derive(Clone, Copy, Debug, PartialEq, Eq, Hash)]
+pub enum Rule {
+    /// TeX: *all* discardable items from the break item up to the first non-discardable one are
+    /// removed from the following line (§837 computes `break_width` once per breakpoint).
+    Tex,
+    /// As `Tex`, but the run of discarded items is cut at the next chosen break (what §879 does
+    /// when the lines are actually built). Differs from `Tex` only for an *empty* line whose two
+    /// breakpoints lie in one run of discardables (`… glue penalty glue …`: the line from the first
+    /// glue to the penalty), where §837 charges the not-yet-seen second glue negatively.
+    TexStopAtNextBreak,
+    /// Deviation models for the known findings C04-*:
+    /// `kern_sign_wrong`: at an explicit-kern break the kern's own width enters the break width with
+    /// the wrong sign (the next line is charged twice the kern instead of nothing);
+    /// `run_not_discarded`: only the break item itself leaves the next line; the discardable items
+    /// after it (and after an empty-post-break discretionary) stay.
+    Deviation {
+        kern_sign_wrong: bool,
+        run_not_discarded: bool,
+    },
+}
+
+#[derive(Clone, Copy, Debug, PartialEq, Eq, Hash)]
+pub enum BreakKind {
+    Glue,
+    Kern,
+    Math,
+    Penalty,
+    Disc,
+    Final,
+}
+
+#[derive(Clone, Debug, PartialEq, Eq)]
+pub struct Break {
+    /// Index into the item list; `items.len()` for the final break.
+    pub pos: usize,
+    /// Penalty as `try_break` sees it (clamped to −10000 from below).
+    pub penalty: i32,
+    pub hyphenated: bool,
+    pub forced: bool,
+    pub kind: BreakKind,
+}
+
+#[derive(Clone, Copy, Debug, PartialEq, Eq)]
+pub struct LineEval {
+    pub badness: i32,
+    pub class: u8,
+    /// b = inf_bad + 1 (§853)
+    pub overfull: bool,
+    pub feasible: bool,
+    pub width: i64,
+    pub shortfall: i64,
+}
+
+/// §108
+pub fn badness(t: i64, s: i64) -> i32 {
+    if t == 0 {
+        return 0;
+    }
+    if s <= 0 {
+        return INF_BAD;
+    }
+    let r: i64 = if t <= 7_230_584 {
+        (t * 297) / s
+    } else if s >= 1_663_497 {
+        t / (s / 297)
+    } else {
+        t
+    };
+    if r > 1290 {
+        INF_BAD
+    } else {
+        ((r * r * r + 0o400000) / 0o1000000) as i32
+    }
+}
+
+fn discardable(it: &Item) -> bool {
+    // §837 / §879 / §148: glue, penalty, math, explicit kern
+    match it {
+        Item::Glue { .. } | Item::Penalty(_) | Item::MathOn | Item::MathOff => true,
+        Item::Kern { explicit, .. } => *explicit,
+        Item::Box { .. } | Item::Disc { .. } => false,
+    }
+}
+
+fn precedes_break(it: &Item) -> bool {
+    // §148 `precedes_break(#) ≡ type(#) < math_node`, plus §868's extra clause for non-explicit kerns
+    match it {
+        Item::Box { .. } | Item::Disc { .. } => true,
+        Item::Kern { explicit, .. } => !*explicit,
+        Item::Glue { .. } | Item::Penalty(_) | Item::MathOn | Item::MathOff => false,
+    }
+}
+
+fn item_totals(it: &Item) -> Totals {
+    let mut t = Totals::default();
+    match *it {
+        Item::Box { w } => t.w = w as i64,
+        Item::Glue {
+            w,
+            stretch,
+            stretch_order,
+            shrink,
+        } => {
+            t.w = w as i64;
+            t.stretch[stretch_order as usize] = stretch as i64;
+            t.shrink = shrink as i64;
+        }
+        Item::Kern { w, .. } => t.w = w as i64,
+        // pre/post-break texts are not part of the running width; the replaced items are ordinary
+        // list items and count themselves
+        Item::Penalty(_) | Item::MathOn | Item::MathOff | Item::Disc { .. } => {}
+    }
+    t
+}
+
+pub struct Model {
+    pub items: Vec<Item>,
+    pub params: Params,
+    pub rule: Rule,
+    pub breaks: Vec<Break>,
+    /// item position -> index into `breaks`
+    pub break_at: Vec<Option<usize>>,
+    /// cum[i] = totals of items[0..i]
+    cum: Vec<Totals>,
+    /// per break: start of the discardable run considered after it, its end under §837, and the
+    /// totals "consumed" before the run starts (post-break text already credited)
+    run_begin: Vec<usize>,
+    run_end_tex: Vec<usize>,
+    base: Vec<Totals>,
+    threshold: i32,
+}
+
+/// One optimal solution per number of lines.
+#[derive(Clone, Debug, Default, PartialEq, Eq)]
+pub struct Solution {
+    /// number of lines -> (minimal total demerits, one sequence of break positions achieving it)
+    pub best_by_lines: BTreeMap<usize, (i64, Vec<usize>)>,
+    /// Largest |partial total| met on any feasible edge (for the awful_bad domain guard).
+    pub max_abs_total: i64,
+}
+
+impl Solution {
+    pub fn feasible(&self) -> bool {
+        !self.best_by_lines.is_empty()
+    }
+    pub fn min_total(&self) -> Option<i64> {
+        self.best_by_lines.values().map(|v| v.0).min()
+    }
+}
+
+/// What a pass may return, given the solution space (`None` = the pass returns no breakpoints).
+#[derive(Clone, Debug, PartialEq, Eq)]
+pub enum Expected {
+    NoSolution,
+    /// Any of these (lines, total demerits) pairs is TeX's answer (more than one only when
+    /// equal-demerit optima with different line counts exist, §874 then picks by list order).
+    OneOf(Vec<(usize, i64)>),
+    /// Depending on how a tie in §874 falls, TeX either returns one of `some` or gives the pass up.
+    NoneOrOneOf(Vec<(usize, i64)>),
+}
+
+impl Model {
+    /// Err = the list is outside the model's domain (the monitor must not generate such lists).
+    pub fn new(items: Vec<Item>, params: Params, rule: Rule) -> Result<Model, String> {
+        if params.line_widths.is_empty() {
+            return Err("no line widths".into());
+        }
+        let n = items.len();
+        let mut cum = Vec::with_capacity(n + 1);
+        let mut t = Totals::default();
+        cum.push(t);
+        for it in &items {
+            t = t.add(&item_totals(it));
+            cum.push(t);
+        }
+        // first non-discardable position at or after i
+        let mut nd = vec![n; n + 1];
+        for i in (0..n).rev() {
+            nd[i] = if discardable(&items[i]) { nd[i + 1] } else { i };
+        }
+        // replaced ranges: no breakpoints inside, only box-like items and implicit kerns (§869
+        // skips them without looking for breaks; anything else there is outside the domain)
+        let mut in_replaced = vec![false; n];
+        for (i, it) in items.iter().enumerate() {
+            if let Item::Disc { replace, .. } = it {
+                if i + replace >= n + usize::from(*replace == 0) && *replace > 0 {
+                    return Err(format!("discretionary at {i} replaces past the end"));
+                }
+                for j in i + 1..=i + replace {
+                    match items[j] {
+                        Item::Box { .. } | Item::Kern { explicit: false, .. } => {}
+                        _ => return Err(format!("item {j} replaced by discretionary {i} is not box-like")),
+                    }
+                    if in_replaced[j] {
+                        return Err(format!("item {j} replaced twice"));
+                    }
+                    in_replaced[j] = true;
+                }
+                if in_replaced[i] {
+                    return Err(format!("discretionary {i} inside a replaced range"));
+                }
+            }
+        }
+
+        let mut breaks: Vec<Break> = vec![];
+        let mut break_at = vec![None; n + 1];
+        let mut auto_breaking = true;
+        for i in 0..n {
+            let cand: Option<(i32, bool, BreakKind)> = match &items[i] {
+                Item::Box { .. } => None,
+                Item::Glue { .. } => {
+                    if auto_breaking && i > 0 && precedes_break(&items[i - 1]) {
+                        Some((0, false, BreakKind::Glue))
+                    } else {
+                        None
+                    }
+                }
+                Item::Kern { explicit, .. } => {
+                    if *explicit && auto_breaking && matches!(items.get(i + 1), Some(Item::Glue { .. })) {
+                        Some((0, false, BreakKind::Kern))
+                    } else {
+                        None
+                    }
+                }
+                Item::MathOn => {
+                    auto_breaking = false;
+                    None
+                }
+                Item::MathOff => {
+                    auto_breaking = true;
+                    if matches!(items.get(i + 1), Some(Item::Glue { .. })) {
+                        Some((0, false, BreakKind::Math))
+                    } else {
+                        None
+                    }
+                }
+                Item::Penalty(p) => Some((*p, false, BreakKind::Penalty)),
+                Item::Disc { pre_empty, .. } => Some((
+                    if *pre_empty {
+                        params.ex_hyphen_penalty
+                    } else {
+                        params.hyphen_penalty
+                    },
+                    true,
+                    BreakKind::Disc,
+                )),
+            };
+            if let Some((p, hyph, kind)) = cand {
+                if in_replaced[i] {
+                    return Err(format!("breakpoint candidate {i} inside a replaced range"));
+                }
+                if p < INF_PENALTY {
+                    break_at[i] = Some(breaks.len());
+                    breaks.push(Break {
+                        pos: i,
+                        penalty: p.max(EJECT_PENALTY),
+                        hyphenated: hyph,
+                        forced: p <= EJECT_PENALTY,
+                        kind,
+                    });
+                }
+            }
+        }
+        break_at[n] = Some(breaks.len());
+        breaks.push(Break {
+            pos: n,
+            penalty: EJECT_PENALTY,
+            hyphenated: true,
+            forced: true,
+            kind: BreakKind::Final,
+        });
+
+        let mut run_begin = vec![];
+        let mut run_end_tex = vec![];
+        let mut base = vec![];
+        for b in &breaks {
+            if b.kind == BreakKind::Final {
+                run_begin.push(n);
+                run_end_tex.push(n);
+                base.push(cum[n]);
+                continue;
+            }
+            match &items[b.pos] {
+                Item::Disc {
+                    post_w,
+                    post_empty,
+                    replace,
+                    ..
+                } => {
+                    let rb = b.pos + 1 + replace;
+                    let mut t = cum[rb];
+                    t.w -= *post_w as i64;
+                    run_begin.push(rb);
+                    run_end_tex.push(if *post_empty { nd[rb] } else { rb });
+                    base.push(t);
+                }
+                _ => {
+                    run_begin.push(b.pos);
+                    run_end_tex.push(nd[b.pos]);
+                    base.push(cum[b.pos]);
+                }
+            }
+        }
+        let threshold = params.tolerance.min(INF_BAD);
+        Ok(Model {
+            items,
+            params,
+            rule,
+            breaks,
+            break_at,
+            cum,
+            run_begin,
+            run_end_tex,
+            base,
+            threshold,
+        })
+    }
+
+    pub fn n_items(&self) -> usize {
+        self.items.len()
+    }
+
+    pub fn final_break(&self) -> usize {
+        self.breaks.len() - 1
+    }
+
+    /// Totals that have been "used up" when the line after break `a` begins, for a line ending at
+    /// break `b`.
+    fn consumed(&self, a: usize, b: usize) -> Totals {
+        let rb = self.run_begin[a];
+        let end = match self.rule {
+            Rule::Tex => self.run_end_tex[a],
+            Rule::TexStopAtNextBreak => self.run_end_tex[a].min(self.breaks[b].pos.max(rb)),
+            Rule::Deviation { run_not_discarded, .. } => {
+                if run_not_discarded {
+                    match self.breaks[a].kind {
+                        BreakKind::Disc => rb,
+                        _ => rb + 1, // the break item itself
+                    }
+                } else {
+                    self.run_end_tex[a]
+                }
+            }
+        };
+        let mut t = self.base[a].add(&self.cum[end].sub(&self.cum[rb]));
+        if let Rule::Deviation {
+            kern_sign_wrong: true, ..
+        } = self.rule
+        {
+            if self.breaks[a].kind == BreakKind::Kern {
+                if let Item::Kern { w, .. } = self.items[self.breaks[a].pos] {
+                    t.w -= 2 * w as i64;
+                }
+            }
+        }
+        t
+    }
+
+    /// Natural dimensions of the line from break `a` (None = start of the paragraph) to break `b`.
+    pub fn line_totals(&self, a: Option<usize>, b: usize) -> Totals {
+        let upto = self.cum[self.breaks[b].pos];
+        let mut t = match a {
+            None => upto,
+            Some(a) => upto.sub(&self.consumed(a, b)),
+        };
+        t = t.add(&self.params.background);
+        if let BreakKind::Disc = self.breaks[b].kind {
+            if let Item::Disc { pre_w, .. } = self.items[self.breaks[b].pos] {
+                t.w += pre_w as i64;
+            }
+        }
+        t
+    }
+
+    pub fn line_width_for(&self, line_no: usize) -> i64 {
+        let lw = &self.params.line_widths;
+        lw[line_no.min(lw.len()) - 1] as i64
+    }
+
+    /// Badness, fitness class and feasibility of the line `a`→`b` when it is line number
+    /// `line_no` (1-based). §851–853.
+    pub fn line(&self, a: Option<usize>, b: usize, line_no: usize) -> LineEval {
+        let t = self.line_totals(a, b);
+        let shortfall = self.line_width_for(line_no) - t.w;
+        let (bad, class, overfull) = if shortfall > 0 {
+            if t.stretch[1] != 0 || t.stretch[2] != 0 || t.stretch[3] != 0 {
+                (0, DECENT, false)
+            } else {
+                let b = badness(shortfall, t.stretch[0]);
+                let c = if b > 12 {
+                    if b > 99 {
+                        VERY_LOOSE
+                    } else {
+                        LOOSE
+                    }
+                } else {
+                    DECENT
+                };
+                (b, c, false)
+            }
+        } else {
+            let (b, over) = if -shortfall > t.shrink {
+                (INF_BAD + 1, true)
+            } else {
+                (badness(-shortfall, t.shrink), false)
+            };
+            (b, if b > 12 { TIGHT } else { DECENT }, over)
+        };
+        LineEval {
+            badness: bad,
+            class,
+            overfull,
+            feasible: bad <= self.threshold,
+            width: t.w,
+            shortfall,
+        }
+    }
+
+    /// §859. `b_idx` is the break ending the line.
+    pub fn demerits(&self, bad: i32, b_idx: usize, prev_class: u8, class: u8, prev_hyphenated: bool) -> i64 {
+        let br = &self.breaks[b_idx];
+        let mut d: i64 = self.params.line_penalty as i64 + bad as i64;
+        d = if d.abs() >= 10000 { 100_000_000 } else { d * d };
+        let pi = br.penalty as i64;
+        if pi != 0 {
+            if pi > 0 {
+                d += pi * pi;
+            } else if pi > EJECT_PENALTY as i64 {
+                d -= pi * pi;
+            }
+        }
+        if br.hyphenated && prev_hyphenated {
+            if br.kind == BreakKind::Final {
+                d += self.params.final_hyphen_demerits as i64;
+            } else {
+                d += self.params.double_hyphen_demerits as i64;
+            }
+        }
+        if (class as i32 - prev_class as i32).abs() > 1 {
+            d += self.params.adj_demerits as i64;
+        }
+        d
+    }
+
+    fn line_class_count(&self) -> usize {
+        self.params.line_widths.len()
+    }
+
+    /// Index of the last forced break strictly before break `b` (None if there is none).
+    fn last_forced_before(&self) -> Vec<Option<usize>> {
+        let mut out = Vec::with_capacity(self.breaks.len());
+        let mut last = None;
+        for (i, b) in self.breaks.iter().enumerate() {
+            out.push(last);
+            if b.forced {
+                last = Some(i);
+            }
+        }
+        out
+    }
+
+    /// The restriction in the property's quantifier: for every line start `a` and every line-width
+    /// class, "the line a→b is overfull" is upward closed in `b` (up to the next forced break, past
+    /// which TeX never extends a line).
+    pub fn monotone(&self) -> bool {
+        let nb = self.breaks.len();
+        let classes = self.line_class_count();
+        for a in std::iter::once(None).chain((0..nb - 1).map(Some)) {
+            for ln in 1..=classes {
+                let mut seen_overfull = false;
+                let from = a.map(|x| x + 1).unwrap_or(0);
+                for b in from..nb {
+                    let e = self.line(a, b, ln);
+                    if seen_overfull && !e.overfull {
+                        return false;
+                    }
+                    if e.overfull {
+                        seen_overfull = true;
+                    }
+                    if self.breaks[b].forced {
+                        break;
+                    }
+                }
+            }
+        }
+        true
+    }
+
+    /// Does `Rule::Tex` differ from `Rule::TexStopAtNextBreak` anywhere on this list?
+    pub fn degenerate_empty_lines_differ(&self) -> bool {
+        for a in 0..self.breaks.len() - 1 {
+            let rb = self.run_begin[a];
+            let re = self.run_end_tex[a];
+            for b in a + 1..self.breaks.len() {
+                let p = self.breaks[b].pos;
+                if p >= re {
+                    break;
+                }
+                if p >= rb && !self.cum[re].sub(&self.cum[p.max(rb)]).is_zero() {
+                    return true;
+                }
+            }
+        }
+        false
+    }
+
+    /// For trigger predicates: does the break width after break `a` under the given deviation
+    /// differ from TeX's?
+    pub fn run_after_break_has_dimensions(&self, a: usize) -> bool {
+        let rb = self.run_begin[a];
+        let first = match self.breaks[a].kind {
+            BreakKind::Disc => rb,
+            BreakKind::Final => return false,
+            _ => rb + 1,
+        };
+        let re = self.run_end_tex[a];
+        re > first && !self.cum[re].sub(&self.cum[first]).is_zero()
+    }
+
+    pub fn is_nonzero_kern_break(&self, a: usize) -> bool {
+        self.breaks[a].kind == BreakKind::Kern && matches!(self.items[self.breaks[a].pos], Item::Kern { w, .. } if w != 0)
+    }
+
+    // --------------------------------------------------------------------------------------
+    // evaluator 1: dynamic programme over (break, lines so far, fitness class of last line)
+
+    pub fn solve_dp(&self) -> Solution {
+        let nb = self.breaks.len();
+        let lfb = self.last_forced_before();
+        let classes = self.line_class_count();
+        // state tables: st[b][lines] = [Option<(total, pred_break(usize::MAX = start), pred_lines.., pred_class)>; 4]
+        type Cell = Option<(i64, usize, u8)>;
+        let max_lines = nb + 1;
+        let mut st: Vec<Vec<[Cell; 4]>> = vec![vec![[None; 4]; max_lines + 1]; nb];
+        let mut max_abs: i64 = 0;
+        // per (a,b): evaluation per width class, computed lazily
+        for b in 0..nb {
+            let lo = lfb[b]; // a must be >= lo (or start if lo is None)
+            // from the start of the paragraph
+            if lo.is_none() {
+                let e = self.line(None, b, 1);
+                if e.feasible {
+                    let d = self.demerits(e.badness, b, DECENT, e.class, false);
+                    max_abs = max_abs.max(d.abs());
+                    relax(&mut st[b][1][e.class as usize], d, usize::MAX, DECENT);
+                }
+            }
+            let a_lo = lo.unwrap_or(0);
+            for a in a_lo..b {
+                // evaluate per width class once
+                let mut evals: Vec<Option<LineEval>> = vec![None; classes + 1];
+                let mut any = false;
+                for (wc, slot) in evals.iter_mut().enumerate().skip(1) {
+                    let e = self.line(Some(a), b, wc);
+                    if e.feasible {
+                        any = true;
+                    }
+                    *slot = Some(e);
+                }
+                if !any {
+                    continue;
+                }
+                let prev_h = self.breaks[a].hyphenated;
+                for lines in 1..max_lines {
+                    let cells = st[a][lines];
+                    if cells.iter().all(|c| c.is_none()) {
+                        continue;
+                    }
+                    let ln = lines + 1;
+                    let e = evals[ln.min(classes)].expect("evaluated");
+                    if !e.feasible {
+                        continue;
+                    }
+                    for (pc, cell) in cells.iter().enumerate() {
+                        if let Some((tot, _, _)) = cell {
+                            let d = self.demerits(e.badness, b, pc as u8, e.class, prev_h);
+                            let nt = tot + d;
+                            max_abs = max_abs.max(nt.abs()).max(d.abs());
+                            relax(&mut st[b][ln][e.class as usize], nt, a, pc as u8);
+                        }
+                    }
+                }
+            }
+        }
+        let mut sol = Solution {
+            best_by_lines: BTreeMap::new(),
+            max_abs_total: max_abs,
+        };
+        let fb = nb - 1;
+        for lines in 1..=max_lines {
+            let mut best: Option<(i64, u8)> = None;
+            for c in 0..4u8 {
+                if let Some((t, _, _)) = st[fb][lines][c as usize] {
+                    if best.map(|(bt, _)| t < bt).unwrap_or(true) {
+                        best = Some((t, c));
+                    }
+                }
+            }
+            if let Some((t, c)) = best {
+                // reconstruct
+                let mut seq = vec![];
+                let (mut b, mut l, mut cl) = (fb, lines, c);
+                loop {
+                    seq.push(self.breaks[b].pos);
+                    let (_, pa, pc) = st[b][l][cl as usize].expect("state on path");
+                    if pa == usize::MAX {
+                        break;
+                    }
+                    b = pa;
+                    l -= 1;
+                    cl = pc;
+                }
+                seq.reverse();
+                sol.best_by_lines.insert(lines, (t, seq));
+            }
+        }
+        sol
+    }
+
+    // --------------------------------------------------------------------------------------
+    // evaluator 2: brute force over all subsets of the optional breakpoints
+
+    /// None if there are more than `max_optional` optional (non-forced, non-final) breakpoints.
+    pub fn solve_brute(&self, max_optional: usize) -> Option<BTreeMap<usize, i64>> {
+        let nb = self.breaks.len();
+        let optional: Vec<usize> = (0..nb - 1).filter(|i| !self.breaks[*i].forced).collect();
+        if optional.len() > max_optional {
+            return None;
+        }
+        let forced: Vec<usize> = (0..nb).filter(|i| self.breaks[*i].forced).collect();
+        let mut out: BTreeMap<usize, i64> = BTreeMap::new();
+        for mask in 0u32..(1u32 << optional.len()) {
+            let mut seq: Vec<usize> = forced.clone();
+            for (k, o) in optional.iter().enumerate() {
+                if mask & (1 << k) != 0 {
+                    seq.push(*o);
+                }
+            }
+            seq.sort_unstable();
+            if let Some(total) = self.total_of_break_indices(&seq) {
+                let lines = seq.len();
+                let e = out.entry(lines).or_insert(total);
+                if total < *e {
+                    *e = total;
+                }
+            }
+        }
+        Some(out)
+    }
+
+    /// Total demerits of a sequence of break indices (ascending, ending with the final break), or
+    /// None if some line is infeasible.
+    fn total_of_break_indices(&self, seq: &[usize]) -> Option<i64> {
+        let mut total = 0i64;
+        let mut prev: Option<usize> = None;
+        let mut prev_class = DECENT;
+        let mut prev_h = false;
+        for (k, b) in seq.iter().enumerate() {
+            let e = self.line(prev, *b, k + 1);
+            if !e.feasible {
+                return None;
+            }
+            total += self.demerits(e.badness, *b, prev_class, e.class, prev_h);
+            prev = Some(*b);
+            prev_class = e.class;
+            prev_h = self.breaks[*b].hyphenated;
+        }
+        Some(total)
+    }
+
+    /// Judge a sequence of break *positions* as returned by an implementation: Ok((lines, total)) if
+    /// it is a valid feasible sequence, Err(reason) otherwise.
+    pub fn evaluate_positions(&self, positions: &[usize]) -> Result<(usize, i64), String> {
+        let mut idx = vec![];
+        for (k, p) in positions.iter().enumerate() {
+            if k > 0 && positions[k - 1] >= *p {
+                return Err(format!("break positions not strictly increasing at {k}"));
+            }
+            match self.break_at.get(*p).copied().flatten() {
+                Some(i) => idx.push(i),
+                None => return Err(format!("position {p} is not a legal breakpoint")),
+            }
+        }
+        if idx.last().copied() != Some(self.final_break()) {
+            return Err("sequence does not end at the end of the paragraph".into());
+        }
+        for (i, b) in self.breaks.iter().enumerate() {
+            if b.forced && !idx.contains(&i) {
+                return Err(format!("forced break at position {} not taken", b.pos));
+            }
+        }
+        match self.total_of_break_indices(&idx) {
+            Some(t) => Ok((idx.len(), t)),
+            None => {
+                // name the first infeasible line
+                let mut prev = None;
+                for (k, b) in idx.iter().enumerate() {
+                    let e = self.line(prev, *b, k + 1);
+                    if !e.feasible {
+                        return Err(format!(
+                            "line {} (to position {}) has badness {} > threshold {}",
+                            k + 1,
+                            self.breaks[*b].pos,
+                            e.badness,
+                            self.threshold
+                        ));
+                    }
+                    prev = Some(*b);
+                }
+                Err("infeasible".into())
+            }
+        }
+    }
+
+    /// What TeX's pass returns given the solution space (§874–875 and the last test of §873).
+    /// `final_pass` = TeX's `final_pass` (accept whatever looseness was reached).
+    pub fn expected(&self, sol: &Solution, final_pass: bool) -> Expected {
+        let Some(min) = sol.min_total() else {
+            return Expected::NoSolution;
+        };
+        let looseness = self.params.looseness as i64;
+        let bases: Vec<usize> = sol.best_by_lines.iter().filter(|(_, v)| v.0 == min).map(|(l, _)| *l).collect();
+        if looseness == 0 {
+            return Expected::OneOf(bases.iter().map(|l| (*l, min)).collect());
+        }
+        let mut some = vec![];
+        let mut none_possible = false;
+        for base in bases {
+            // the feasible line count closest to base+looseness without passing it and without
+            // moving away from base in the wrong direction
+            let mut actual: i64 = 0;
+            for l in sol.best_by_lines.keys() {
+                let diff = *l as i64 - base as i64;
+                if (looseness > 0 && diff > actual && diff <= looseness) || (looseness < 0 && diff < actual && diff >= looseness) {
+                    actual = diff;
+                }
+            }
+            if actual != looseness && !final_pass {
+                none_possible = true;
+            } else {
+                let l = (base as i64 + actual) as usize;
+                let e = (l, sol.best_by_lines[&l].0);
+                if !some.contains(&e) {
+                    some.push(e);
+                }
+            }
+        }
+        if some.is_empty() {
+            Expected::NoSolution
+        } else if none_possible {
+            Expected::NoneOrOneOf(some)
+        } else {
+            Expected::OneOf(some)
+        }
+    }
+
+    pub fn threshold(&self) -> i32 {
+        self.threshold
+    }
+}
+
+fn relax(cell: &mut Option<(i64, usize, u8)>, total: i64, pred: usize, pred_class: u8) {
+    match cell {
+        Some((t, _, _)) if *t <= total => {}
+        _ => *cell = Some((total, pred, pred_class)),
+    }
+}
+
+#[cfg(test)]
+mod tests {
+    use super::*;
+
+    const PT: i32 = 65536;
+
+    fn params(widths: &[i32], tol: i32) -> Params {
+        Params {
+            line_widths: widths.to_vec(),
+            tolerance: tol,
+            line_penalty: 10,
+            hyphen_penalty: 50,
+            ex_hyphen_penalty: 50,
+            adj_demerits: 10000,
+            double_hyphen_demerits: 10000,
+            final_hyphen_demerits: 5000,
+            looseness: 0,
+            background: Totals::default(),
+        }
+    }
+
+    fn word(n: usize) -> Vec<Item> {
+        (0..n).map(|_| Item::Box { w: 5 * PT }).collect()
+    }
+
+    fn fil_glue() -> Item {
+        Item::Glue {
+            w: 0,
+            stretch: PT,
+            stretch_order: 1,
+            shrink: 0,
+        }
+    }
+
+    #[test]
+    fn kern_break_is_feasible_in_tex() {
+        // AAAAA kern(4pt explicit) glue BBBBB \penalty10000 \parfillskip at 30pt, 5pt chars
+        let mut items = word(5);
+        items.push(Item::Kern { w: 4 * PT, explicit: true });
+        items.push(Item::Glue { w: 5 * PT, stretch: 3 * PT, stretch_order: 0, shrink: PT });
+        items.extend(word(5));
+        items.push(Item::Penalty(10000));
+        items.push(fil_glue());
+        let m = Model::new(items.clone(), params(&[30 * PT], 10000), Rule::Tex).unwrap();
+        assert_eq!(m.breaks.iter().map(|b| b.pos).collect::<Vec<_>>(), vec![5, 17]);
+        let sol = m.solve_dp();
+        assert!(sol.feasible());
+        assert_eq!(sol.best_by_lines.keys().copied().collect::<Vec<_>>(), vec![2]);
+        let brute = m.solve_brute(12).unwrap();
+        assert_eq!(brute.get(&2), Some(&sol.best_by_lines[&2].0));
+        // what the code does today: the kern is charged twice and the glue stays
+        let d = Model::new(
+            items,
+            params(&[30 * PT], 10000),
+            Rule::Deviation { kern_sign_wrong: true, run_not_discarded: true },
+        )
+        .unwrap();
+        // second line = 2*4pt + 5pt + 25pt = 38pt with 1pt shrink: overfull
+        assert!(d.line(Some(0), 1, 2).overfull);
+        assert!(!d.solve_dp().feasible());
+    }
+
+    #[test]
+    fn second_glue_is_discarded_in_tex() {
+        // AAAAA glue(5pt) glue(4pt) BBBBB: TeX's second line is BBBBB alone
+        let g = |w: i32| Item::Glue { w, stretch: 0, stretch_order: 0, shrink: 0 };
+        let mut items = word(5);
+        items.push(g(5 * PT));
+        items.push(g(4 * PT));
+        items.extend(word(5));
+        let m = Model::new(items.clone(), params(&[26 * PT], 10000), Rule::Tex).unwrap();
+        assert_eq!(m.line_totals(Some(0), 1).w, 25 * PT as i64);
+        let d = Model::new(items, params(&[26 * PT], 10000), Rule::Deviation { kern_sign_wrong: false, run_not_discarded: true }).unwrap();
+        assert_eq!(d.line_totals(Some(0), 1).w, 29 * PT as i64);
+    }
+
+    #[test]
+    fn discretionary_widths() {
+        // ab disc(pre "-" 3pt, post "x" 2pt, replace 1) c d: breaking at the disc gives "ab-" / "xd"
+        let items = vec![
+            Item::Box { w: 5 * PT },
+            Item::Box { w: 5 * PT },
+            Item::Disc { pre_w: 3 * PT, pre_empty: false, post_w: 2 * PT, post_empty: false, replace: 1 },
+            Item::Box { w: 7 * PT },
+            Item::Box { w: 5 * PT },
+        ];
+        let m = Model::new(items, params(&[13 * PT], 10000), Rule::Tex).unwrap();
+        assert_eq!(m.line_totals(None, 0).w, 13 * PT as i64);
+        assert_eq!(m.line_totals(Some(0), 1).w, 7 * PT as i64);
+        assert_eq!(m.line_totals(None, 1).w, 22 * PT as i64);
+    }
+
+    #[test]
+    fn looseness_expectations() {
+        let mut sol = Solution::default();
+        sol.best_by_lines.insert(3, (100, vec![]));
+        sol.best_by_lines.insert(4, (50, vec![]));
+        sol.best_by_lines.insert(6, (70, vec![]));
+        let mut p = params(&[PT], 100);
+        p.looseness = 1;
+        let m = Model::new(vec![], p.clone(), Rule::Tex).unwrap();
+        // best is 4 lines; +1 is not available (5 lines missing)
+        assert_eq!(m.expected(&sol, false), Expected::NoSolution);
+        assert_eq!(m.expected(&sol, true), Expected::OneOf(vec![(4, 50)]));
+        p.looseness = 2;
+        let m = Model::new(vec![], p.clone(), Rule::Tex).unwrap();
+        assert_eq!(m.expected(&sol, false), Expected::OneOf(vec![(6, 70)]));
+        p.looseness = -2;
+        let m = Model::new(vec![], p, Rule::Tex).unwrap();
+        assert_eq!(m.expected(&sol, true), Expected::OneOf(vec![(3, 100)]));
+        assert_eq!(m.expected(&sol, false), Expected::NoSolution);
+    }
+}
